@@ -1,6 +1,7 @@
 import HC.Proofs.File
 import HC.Model.Tree
 import HC.Proofs.Replica
+import HC.Proofs.Journal
 /-!
 # C14 — behaviour and bytes are independent of storage backend and node cache
 
@@ -124,6 +125,32 @@ theorem backends_agree {β γ : Type} (B : Backend β) (G : Backend γ) (b : β)
   obtain ⟨b1, b2⟩ := backend_simulation B ops b
   obtain ⟨g1, g2⟩ := backend_simulation G ops g
   refine ⟨by rw [b1, g1, h0], fun off len => by rw [b2, g2, h0]⟩
+
+/-- a journalled operation as an operation on the store it targets -/
+def toF : SOp → FOp
+  | .write _ off bs => .write off bs
+  | .del _ off len => .del off len
+  | .trunc _ len => .trunc len
+
+theorem onFile_eq (op : SOp) (f : File) : op.onFile f = FOp.run f (toF op) := by
+  cases op with
+  | write s off bs => rfl
+  | del s off len => simp only [SOp.onFile, toF, FOp.run]; cases f.del off len <;> rfl
+  | trunc s len => rfl
+
+/-- **the model's journals on any backend**: if backend `b` stands for store `s` of the model's disk, then after any
+    journal of the model (any call, any history) the backend that was given the operations of its store stands
+    for store `s` of the resulting disk, and answers every read as that file does -/
+theorem journal_on_backend {β : Type} (B : Backend β) (b : β) (d : Disk) (s : Store) (h0 : B.view b = d.get s) (ops : List SOp) :
+    let b' := ((ops.filter fun op => op.store = s).map toF).foldl B.run b
+    B.view b' = (d.applyAll ops).get s ∧ ∀ off len, B.read b' off len = ((d.applyAll ops).get s).read off len := by
+  have e : (d.applyAll ops).get s = ((ops.filter fun op => op.store = s).map toF).foldl FOp.run (B.view b) := by
+    rw [Journal.applyAll_get, h0, List.foldl_map]
+    congr 1
+    funext f op
+    exact onFile_eq op f
+  obtain ⟨h1, h2⟩ := backend_simulation B ((ops.filter fun op => op.store = s).map toF) b
+  exact ⟨by rw [h1, e], fun off len => by rw [h2, e]⟩
 
 /-- non-vacuity: the flat file itself is a backend -/
 def flatBackend : Backend File := ⟨id, FOp.run, File.read, fun _ _ => rfl, fun _ _ _ => rfl⟩
